@@ -11,6 +11,7 @@ func init() { Registry["C09"] = runC09 }
 
 func runC09(c *Ctx) {
 	R := c.R
+	defer c.include("C09.S1", "C08", []string{"C08.R4"}, "the announced format of each column is the format its values are encoded in: one decision table, one result-format list per Bind", 4)
 	R.Technique = "operand provenance and guard rules on Column.Write (NULL marker), access-path identity of the column sets used for RowDescription and DataRow, sibling agreement of the format tables (shared with C08.R4)"
 	R.Explanation = "The headline of this property - decoded value equals written value for every type and format - is a statement about pgx codecs and runtime values and is NOT decided by static analysis. Decided structural clauses, each a necessary condition: (R1) in Column.Write the length field is -1 exactly on the edge where the buffer returned by the type map's Encode is nil (the documented NULL signal for untyped nil, nil pointers and invalid nullable values), len(buffer) otherwise; the buffer handed to Encode is a fresh non-nil slice, so a nil result can only mean NULL and a non-NULL empty value keeps length 0; the bytes appended are that same buffer; an encode error returns before anything is appended. " +
 		"(R2) the DataRow count and the RowDescription count are len() of the same column set at each pairing site (simple query: the statement's columns for both; portal: the portal's statement columns for both) and the arity test dominates the DataRow frame; (R3) the format announced equals the format used (same decision table in Columns.Define and Columns.Write); (R4) the type map used for encoding is the one stored in the connection's context."
